@@ -8,6 +8,7 @@ from ..astutil import dotted, get_arg, norm, enclosing, defs_of
 from ..srcmodel import own_nodes, AnalysisError
 from ..escape import (esc_obligations, pair_obligations, find_opener, map_yielders, with_blocks)
 from ..cfg import cfg_of
+from ..rules import GateAnalysis, ModeGate, eval_writeable_test
 
 EXPLANATION = (
     "Ownership analysis of the shared memmap cache (R-SHARE): the opener is found by role; the "
@@ -76,6 +77,45 @@ def refcount_shape(opener, mattr):
     return True, f'release guarded by user counter {k}'
 
 
+class FlagGate(ModeGate):
+    """Only tests of the writeable flag of a map count."""
+    name = 'writeable-flag gate'
+
+    def classify_if(self, st, func, ctx):
+        c = super().classify_if(st, func, ctx)
+        if c is not None and c[0] == 'gate' and not c[1].startswith('G1w'):
+            return None
+        return c
+
+    def forbidden_fold(self, func, ctx):
+        return lambda test: eval_writeable_test(test, False)
+
+
+def d4_write_gate_judges_the_map(ctx, opener):
+    """Every write takes effect: with a borrower path the map an element assignment goes to may have been opened by a
+    context / generator in another mode than the handle's own attribute (`open_array(accessmode='r+')` on an 'r'
+    handle).  The refusal test of __setitem__ must therefore be the writeable flag of the map it is about to write to,
+    not the attribute: a gate on the attribute refuses writes that the open context allows."""
+    A = opener.cls
+    f = A.methods.get('__setitem__')
+    if f is None:
+        raise AnalysisError('Array.__setitem__ vanished')
+    stores = [n for n in own_nodes(f.node) if isinstance(n, ast.Subscript) and isinstance(n.ctx, ast.Store)]
+    if not stores:
+        raise AnalysisError('Array.__setitem__: element store not found')
+    GA = GateAnalysis(ctx, FlagGate())
+    gates = set(GA.local_gates(f))
+    free = GA.free_nodes(f, gates)
+    g = cfg_of(f)
+    for st in stores:
+        ctx.decide(g.node_for(st) not in free, 'R-DOM', 'D4', f, st, 'write-gate-judges-the-map',
+                   'Array.__setitem__: the refusal test in front of the element store is the writeable flag of the (possibly '
+                   'borrowed) map that is written to',
+                   detail='the store is not dominated by a test of `<map>.flags.writeable`: a gate on the handle\'s accessmode '
+                          'attribute refuses an assignment inside `with a.open_array(accessmode=\'r+\')` on a handle whose '
+                          'own mode is \'r\' (the write does not take effect), and lets nothing through that the map refuses')
+
+
 def run(ctx):
     opener, mattr, fdattr = find_opener(ctx)
     yielders = map_yielders(ctx)
@@ -119,6 +159,8 @@ def run(ctx):
     # D4: holders do not pin a mode of their own (every write takes effect)
     from .C12 import d5_contexts
     d5_contexts(ctx)
+    if borrower:
+        d4_write_gate_judges_the_map(ctx, opener)
     for f in holders:
         ctx.ok('R-PAIR', 'D3', f, None, 'yield-inside-with',
                f'{f.qualname} suspends inside `with <opener>`: GeneratorExit unwinds through the release')
